@@ -152,6 +152,25 @@ def step (st : Unit) (j : Json) : Unit × Json :=
             ("out", Json.arr (out.map optFloatToJson).toArray),
             ("probe_out", Json.arr (pout.map optFloatToJson).toArray),
             ("inv_out", invOut)])))
+    | "show" =>
+        -- visualization.py callers
+        let which ← strField j "which"
+        let norm ← normArgOfJson (fieldD j "norm" Json.null)
+        let kw ← kwListOfJson (fieldD j "kwargs" (Json.arr #[]))
+        let arrays ← (← arrField j "arrays").toList.mapM fun a => do
+          pure ((← floatList a).map extOfFloat)
+        let normJson := fun (n : Norm.Norm Float) => [
+            ("stretch", Json.str (stretchName n.stretch)), ("interval", intervalToJson n.interval),
+            ("attr_vmin", optFloatToJson n.vmin), ("attr_vmax", optFloatToJson n.vmax)]
+        let outJson := fun (o : List (Option Float)) => Json.arr (o.map optFloatToJson).toArray
+        if which == "array" then
+          pure (wrapErr (do
+            let (n, out) ← showArray norm kw false (arrays.headD [])
+            pure (Json.mkObj (normJson n ++ [("outs", Json.arr #[outJson out])]))))
+        else
+          pure (wrapErr (do
+            let (n, outs) ← showCombined norm kw arrays
+            pure (Json.mkObj (normJson n ++ [("outs", Json.arr (outs.map outJson).toArray)]))))
     | "limits" =>
         -- <Interval>.get_limits(data) alone
         let cfg ← configOfJson (← field j "cfg")
